@@ -457,13 +457,16 @@ func main() {
 			"listener: codec of the accepted connection == client's protocol. Payloads whose frame would exceed 16 MiB may be refused by either side (statement covers up to the frame limit). distinct = distinct witnesses.")
 		c.Assume("scripted in-memory reader never returns (0,nil) and reports EOF separately like TCP; reference framing and obfuscated2 key schedule of lib/reftransport written from core.telegram.org/mtproto/mtproto-transports; concurrent senders on one connection are NOT covered (needs the controlled scheduler)")
 
-		var ws []W
-		add := func(w W) { ws = append(ws, w) }
-
-		type stream struct {
-			proto, wrap, src string
-			frames           []Frame
+		// A job is one byte stream plus the set of chunkings to run it under; the chunkings are
+		// enumerated inside the worker so that the witness list is never materialised.
+		type job struct {
+			base   W
+			single bool          // whole, 1-byte and every single split point (stream <= 2 KiB)
+			pairs  int           // >0: every pair of split points if the stream is at most this long
+			list   []rt.Chunking // explicit chunkings
+			edges  bool          // splits near both ends of the stream
 		}
+		var jobs []job
 		mk := func(lens []int, pads []int) []Frame {
 			fr := make([]Frame, len(lens))
 			for i, n := range lens {
@@ -479,128 +482,81 @@ func main() {
 		}
 		srcs := []string{"td", "ref", "listener"}
 
-		// sequences for single-split enumeration
-		single := seqs([]int{4, 8, 12, 500, 504, 508, 512}, 2)
+		// sequences for the single-split enumeration
+		var single [][]int
 		if c.Thorough() {
+			single = seqs([]int{4, 8, 12, 500, 504, 508, 512}, 2)
 			for _, s := range seqs([]int{4, 8, 504, 508, 512}, 3) {
 				if len(s) == 3 {
 					single = append(single, s)
 				}
 			}
 		} else {
-			for _, s := range seqs([]int{8, 504, 508}, 3) {
-				if len(s) == 3 {
-					single = append(single, s)
-				}
-			}
+			single = append(seqs([]int{4, 8, 504, 508}, 2), []int{12}, []int{500}, []int{512}, []int{512, 500}, []int{12, 512},
+				[]int{8, 504, 508}, []int{508, 504, 8}, []int{504, 508, 504}, []int{508, 508, 508}, []int{4, 508, 4}, []int{508, 4, 504})
 		}
 		pairSeqs := seqs([]int{4, 8, 12}, 3)
 		if c.Quick() {
 			pairSeqs = append(seqs([]int{4, 8, 12}, 2), []int{8, 4, 12}, []int{12, 8, 4}, []int{4, 4, 4}, []int{8, 8, 8})
 		}
-
-		var streams []stream
 		padVariants := func(proto string) [][]int {
-			if proto == rt.Padded {
-				return [][]int{{0, 1, 2}, {1, 2, 3}, {2, 3, 0}, {3, 0, 1}}
+			if proto != rt.Padded {
+				return [][]int{nil}
 			}
-			return [][]int{nil}
+			if c.Quick() {
+				return [][]int{{0, 1, 2}, {3, 2, 1}}
+			}
+			return [][]int{{0, 1, 2}, {1, 2, 3}, {2, 3, 0}, {3, 0, 1}}
 		}
 		for _, proto := range rt.Protocols {
 			for _, src := range srcs {
 				for _, wrap := range wrapsOf(proto, src) {
-					if src == "listener" && c.Quick() && wrap == "obf" && proto != rt.Abridged {
-						// quick: one obfuscated listener protocol with splits; all three get whole/1-byte below
-						continue
-					}
 					for _, s := range single {
 						if src == "listener" && len(s) == 3 {
 							continue
 						}
 						for _, pv := range padVariants(proto) {
-							streams = append(streams, stream{proto, wrap, src, mk(s, pv)})
+							j := job{base: W{Proto: proto, Wrap: wrap, Src: src, Frames: mk(s, pv)}, single: true}
+							if c.Quick() && src == "listener" && wrap == "obf" && proto != rt.Abridged {
+								// quick: one obfuscated listener protocol gets every split, the others a fixed set
+								j.single = false
+								j.list = []rt.Chunking{rt.Whole(), rt.OneByte(), rt.Every(7)}
+							}
+							jobs = append(jobs, j)
 						}
 					}
-				}
-			}
-		}
-		for _, st := range streams {
-			base := W{Proto: st.proto, Wrap: st.wrap, Src: st.src, Frames: st.frames}
-			n := wireLen(base)
-			w := base
-			w.Chunk = rt.Whole()
-			add(w)
-			w.Chunk = rt.OneByte()
-			add(w)
-			if n <= 2048 {
-				for p := 1; p < n; p++ {
-					w.Chunk = rt.CutAt(p)
-					add(w)
-				}
-			}
-		}
-		// pairs of splits
-		for _, proto := range rt.Protocols {
-			for _, src := range srcs {
-				for _, wrap := range wrapsOf(proto, src) {
+					// pairs of splits
 					if c.Quick() && (src == "listener" || wrap == "obf-secret") {
 						continue
 					}
+					lim := 64
+					if isObf(wrap) {
+						lim = 128
+					}
 					for _, s := range pairSeqs {
-						for _, pv := range padVariants(proto)[:1] {
-							base := W{Proto: proto, Wrap: wrap, Src: src, Frames: mk(s, pv)}
-							n := wireLen(base)
-							lim := 64
-							if isObf(wrap) {
-								lim = 128
-							}
-							if n > lim {
-								continue
-							}
-							for a := 1; a < n; a++ {
-								for b := a + 1; b < n; b++ {
-									w := base
-									w.Chunk = rt.CutAt(a, b)
-									add(w)
-								}
-							}
-						}
+						jobs = append(jobs, job{base: W{Proto: proto, Wrap: wrap, Src: src, Frames: mk(s, padVariants(proto)[0])}, pairs: lim})
 					}
 				}
 			}
 		}
-		// quick: the obfuscated listener for the protocols skipped above, whole and 1-byte
-		if c.Quick() {
-			for _, proto := range []string{rt.Intermediate, rt.Padded} {
-				for _, s := range single {
-					if len(s) == 3 {
-						continue
-					}
-					for _, ch := range []rt.Chunking{rt.Whole(), rt.OneByte(), rt.Every(7)} {
-						add(W{Proto: proto, Wrap: "obf", Src: "listener", Frames: mk(s, []int{1, 3}), Chunk: ch})
-					}
-				}
-			}
-		}
+		both := []rt.Chunking{rt.Whole(), rt.OneByte()}
 		// 4-byte frames: code values
 		codes := []int32{-404, -429, -444, 404, 0, -1, 1, -2147483648, 2147483647}
 		for _, proto := range rt.Protocols {
 			for _, src := range srcs {
 				for _, wrap := range wrapsOf(proto, src) {
 					for _, code := range codes {
-						for _, ch := range []rt.Chunking{rt.Whole(), rt.OneByte()} {
-							add(W{Proto: proto, Wrap: wrap, Src: src, Chunk: ch, Frames: []Frame{{Len: 8}, {Len: 4, Code: code}, {Len: 12, Pad: 1}}})
-							add(W{Proto: proto, Wrap: wrap, Src: src, Chunk: ch, Frames: []Frame{{Len: 4, Code: code}}})
+						jobs = append(jobs, job{base: W{Proto: proto, Wrap: wrap, Src: src, Frames: []Frame{{Len: 8}, {Len: 4, Code: code}, {Len: 12, Pad: 1}}}, list: both})
+						if code != -404 {
+							jobs = append(jobs, job{base: W{Proto: proto, Wrap: wrap, Src: src, Frames: []Frame{{Len: 4, Code: code}}}, list: both})
 						}
 					}
 				}
 			}
 		}
-		// reference sender with 4..15 padding bytes (informational: statement is silent)
-		for pad := 0; pad <= 15; pad++ {
-			for _, ch := range []rt.Chunking{rt.Whole(), rt.OneByte()} {
-				add(W{Proto: rt.Padded, Wrap: "header", Src: "ref", Chunk: ch, Frames: []Frame{{Len: 8, Pad: pad}, {Len: 508, Pad: pad}, {Len: 12, Pad: 15 - pad}}})
-			}
+		// reference sender with 4..15 padding bytes (informational: the statement is silent)
+		for pad := 4; pad <= 15; pad++ {
+			jobs = append(jobs, job{base: W{Proto: rt.Padded, Wrap: "header", Src: "ref", Frames: []Frame{{Len: 8, Pad: pad}, {Len: 508, Pad: pad}, {Len: 12, Pad: 19 - pad}}}, list: both})
 		}
 		// large frames
 		large := [][]int{{65536}, {8, 65536, 12}, {65536, 65536}, {1 << 18}}
@@ -619,36 +575,63 @@ func main() {
 						if src == "ref" && s[len(s)-1] > rt.FrameLimit {
 							continue // the reference sender has no business producing frames above the limit
 						}
-						base := W{Proto: proto, Wrap: wrap, Src: src, Frames: mk(s, []int{3, 1})}
-						chunks := []rt.Chunking{rt.Whole(), rt.Every(4096), rt.Every(65536)}
+						j := job{base: W{Proto: proto, Wrap: wrap, Src: src, Frames: mk(s, []int{3, 1})},
+							list: []rt.Chunking{rt.Whole(), rt.Every(4096), rt.Every(65536)}}
 						if !big {
-							n := wireLen(base)
-							chunks = append(chunks, rt.OneByte())
-							for _, p := range []int{1, 2, 3, 4, 5, 7, 8, 9, 12, 13, 64, 65, 68, 69, 72} {
-								chunks = append(chunks, rt.CutAt(p), rt.CutAt(n-p))
-							}
+							j.edges = true
+							j.list = append(j.list, rt.OneByte())
 						} else if src == "td" && wrap == "header" {
-							chunks = append(chunks, rt.OneByte())
+							j.list = append(j.list, rt.OneByte())
 						}
-						for _, ch := range chunks {
-							w := base
-							w.Chunk = ch
-							add(w)
-						}
+						jobs = append(jobs, j)
 					}
 				}
 			}
 		}
 
-		c.Set("cases_planned", len(ws))
-		kit.Parallel(len(ws), 16, func(i int) {
-			if c.Expired() {
+		c.Set("streams", len(jobs))
+		kit.Parallel(len(jobs), 16, func(i int) {
+			j := jobs[i]
+			run := func(ch rt.Chunking) {
+				if c.Expired() {
+					return
+				}
+				w := j.base
+				w.Chunk = ch
+				fam.Eval(w)
+			}
+			for _, ch := range j.list {
+				run(ch)
+			}
+			if !j.single && j.pairs == 0 && !j.edges {
 				return
 			}
-			fam.Eval(ws[i])
+			n := wireLen(j.base)
+			if j.single {
+				run(rt.Whole())
+				run(rt.OneByte())
+				if n <= 2048 {
+					for p := 1; p < n; p++ {
+						run(rt.CutAt(p))
+					}
+				}
+			}
+			if j.pairs > 0 && n <= j.pairs {
+				for a := 1; a < n; a++ {
+					for b := a + 1; b < n; b++ {
+						run(rt.CutAt(a, b))
+					}
+				}
+			}
+			if j.edges {
+				for _, p := range []int{1, 2, 3, 4, 5, 7, 8, 9, 12, 13, 64, 65, 68, 69, 72} {
+					run(rt.CutAt(p))
+					run(rt.CutAt(n - p))
+				}
+			}
 		})
 		if c.Expired() {
-			c.NotExhaustive("time budget hit before all %d planned cases were evaluated", len(ws))
+			c.NotExhaustive("time budget hit before all chunkings of all %d streams were evaluated", len(jobs))
 		}
 	})
 }
